@@ -4,8 +4,10 @@
 #[verifier::external_type_specification] #[verifier::external_body] #[verifier::reject_recursive_types(T)]
 pub struct ExOneshotSender<T>(tokio::sync::oneshot::Sender<T>);
 pub uninterp spec fn sent_value<T>(s: tokio::sync::oneshot::Sender<T>) -> T;
+//    `answered(tx)`: `send` WAS called on this sender (the holder of the paired Receiver gets Ok only then).
+pub uninterp spec fn answered<T>(s: tokio::sync::oneshot::Sender<T>) -> bool;
 pub assume_specification<T>[ tokio::sync::oneshot::Sender::<T>::send ](s: tokio::sync::oneshot::Sender<T>, t: T) -> (r: core::result::Result<(), T>)
-    ensures sent_value(s) == t;
+    ensures sent_value(s) == t, answered(s);
 #[verifier::external_type_specification] #[verifier::external_body]
 pub struct ExNotify(tokio::sync::Notify);
 #[verifier::external_type_specification] #[verifier::external_body]
@@ -77,3 +79,14 @@ pub tracked struct ChanTrace<M> {
 // (so that a body using send_timeout with a literal duration is accepted and judged by its contract)
 pub assume_specification [std::time::Duration::from_millis] (ms: u64) -> std::time::Duration;
 pub assume_specification [std::time::Duration::from_secs] (s: u64) -> std::time::Duration;
+// str::to_lowercase: only NAMED (uninterpreted `lower`): a body that lower-cases a text it must hand on unchanged is then DECIDED by the
+// clause that states the text, instead of being UNDECIDED ("to_lowercase is not supported")
+pub uninterp spec fn lower(s: Seq<char>) -> Seq<char>;
+pub assume_specification [str::to_lowercase] (s: &str) -> (r: String)
+    ensures r@ == lower(s@);
+// std::sync::Mutex (the redirector actor holds Option<Arc<Mutex<BpfObject>>>): opaque
+#[verifier::external_type_specification] #[verifier::external_body] #[verifier::reject_recursive_types(T)]
+pub struct ExStdMutex<T: ?Sized>(std::sync::Mutex<T>);
+// Arc::clone: another handle to the SAME shared object (std docs: "creates another pointer to the same allocation"). Trusted.
+pub assume_specification<T: ?Sized, A: core::alloc::Allocator + Clone>[<std::sync::Arc<T, A> as Clone>::clone](a: &std::sync::Arc<T, A>) -> (r: std::sync::Arc<T, A>)
+    ensures r == *a;
